@@ -182,6 +182,7 @@ theorem progress {t : Topo} (wf : t.WF) {s : State} (hi : Inv t s) {d : Nat} (hd
     rw [if_neg (by simp [hguard])]
     split
     · rw [if_neg (by simp [heof])]
+      rw [if_neg (by simp)]
       split
       · exact ⟨_, rfl⟩
       · split <;> exact ⟨_, rfl⟩
@@ -248,6 +249,8 @@ theorem no_result_after {t : Topo} {s s' : State} {l : Label} (hr : s.running 0 
     split at h
     · split at h
       · cases h
+      split at h
+      · cases h; exact same (systemError_toClient t _ hp0)
       repeat' (first | (cases h; done) | (cases h; exact same rfl) | split at h)
     · simp only at h
       have hpf : (p = 0) = False := by simp [hp0]
@@ -270,8 +273,11 @@ theorem no_result_after {t : Topo} {s s' : State} {l : Label} (hr : s.running 0 
     simp only [Bool.not_eq_true', Bool.not_eq_false, Bool.and_eq_true, bne_iff_ne, ne_eq] at hg
     have hn0 : n ≠ 0 := hg.1.1.2
     split at h
-    · split at h <;> cases h
-      exact same rfl
+    · split at h
+      · cases h
+      split at h <;> cases h
+      · exact same (systemError_toClient t _ hn0)
+      · exact same rfl
     · simp only at h
       split at h
       · cases h; exact same rfl
